@@ -1,5 +1,7 @@
 (* Conversions between OCaml values and the extracted inductive numerals; hex I/O. *)
 open Model
+(* the extracted Coq string type must not shadow OCaml strings *)
+type string = Stdlib.String.t
 
 let rec pos_of_int (i : int) : positive =
   if i = 1 then XH else if i land 1 = 0 then XO (pos_of_int (i lsr 1)) else XI (pos_of_int (i lsr 1))
